@@ -57,7 +57,7 @@ claim("C16", "exploration",
       "DESIGN.md §4 C16", LOOM_NOTE)
 claim("C17", "exploration",
       "loom: complete (unbounded) exploration of the source-included WaitSlot with park without timeout",
-      "One waiter (register; loop wait_while) against one or two notifiers (publish condition, notify), one or two conditions, two rounds, condition under a mutex; park has no timeout so a lost wake-up is a loom deadlock. The models found a store-buffering lost wake-up on the unchanged tree (finding F3, fixed). The three production notifiers (validate, the finality loop, cancel) are covered under SC by C05 within its deviation bounds only: a change to *where the finality loop notifies* that needs the commit thread to stay suspended across several voluntary yields of the other threads (seeded/C17d, DESIGN.md 11.6 'Open gap') is not reported by any check.",
+      "One waiter (register; loop wait_while) against one or two notifiers (publish condition, notify), one or two conditions, two rounds, condition under a mutex; park has no timeout so a lost wake-up is a loom deadlock. The models found a store-buffering lost wake-up on the unchanged tree (finding F3, fixed). The three production notifiers (validate, the finality loop, cancel) are covered under SC by C05, including its sticky-coordinator family (a deviation suspends the passed-over thread), which is what reports a misplaced notification in the finality loop (seeded/C17d).",
       "DESIGN.md §4 C17, §5 F3", LOOM_NOTE)
 
 claim("C06", "exploration",
